@@ -2,12 +2,13 @@ package phttp
 
 import (
 	"context"
-	"crypto/sha256"
 	"encoding/base64"
-	"encoding/hex"
 	"encoding/json"
 	"fmt"
 	"os"
+	"regexp"
+	"sort"
+	"strconv"
 	"strings"
 	"time"
 
@@ -38,16 +39,33 @@ func bootC38(ctx context.Context) (*c38ctx, error) {
 
 // mcase is one mutated request.
 type mcase struct {
-	Seed *Seed
-	Loc  string // location class (signature component)
-	Repl string // replacement class (signature component)
-	Req  Req
-	Pre  []Req // requests served before, on the same clone (must be 2xx)
+	Seed seedRef `json:"seed"`
+	Loc  string  `json:"loc"`  // location class (signature component)
+	Repl string  `json:"repl"` // replacement class (signature component)
+	Req  Req     `json:"req"`
+	Pre  []Req   `json:"pre,omitempty"` // requests served before, on the same clone (must be 2xx)
 	// Must: the mutated request is DEFINITELY invalid client input: the answer must be 4xx.
 	// Otherwise the case is "in doubt": 2xx and 4xx are both fine.
-	Must bool
+	Must bool `json:"must,omitempty"`
 	// Sanity: the request is VALID and must be 2xx (vacuity guard, not a mutation).
-	Sanity bool
+	Sanity bool `json:"sanity,omitempty"`
+}
+
+// seedRef is what a case needs to know about its seed (plain data: cases travel to the
+// child processes as JSON).
+type seedRef struct {
+	API   string `json:"api"`
+	Route string `json:"route"`
+	Name  string `json:"name,omitempty"`
+	// PartialEffect: the route documents that a failing request may keep the effect of its
+	// independent parts (non-atomic bulk): "4xx => database unchanged" does not apply.
+	PartialEffect bool `json:"partialEffect,omitempty"`
+}
+
+func (s seedRef) id() string { return s.API + ":" + s.Route + ":" + s.Name }
+
+func (s *Seed) ref() seedRef {
+	return seedRef{API: s.API, Route: s.Route, Name: s.Name, PartialEffect: s.PartialEffect}
 }
 
 var queryMenu = []named{{"neg", "-1"}, {"zero", "0"}, {"abc", "abc"}, {"1e9", "1e9"}, {"empty", ""}}
@@ -145,23 +163,28 @@ func isDateString(v any) bool {
 
 // jsonCases: every pointer x (menu + delete), bad dates on date-valued leaves, and the
 // named invalid values of the seed.
-func jsonCases(s *Seed, tree any, ndjson bool, locPrefix string, set func(body string) Req, must func(p, r string) bool, values, raw map[string][]named) []mcase {
+func jsonCases(s *Seed, tree any, ndjson bool, locPrefix string, set func(body string) Req, must func(p, r string) bool, values, raw map[string][]named, strictDates bool, keepDoc func(i int) bool) []mcase {
 	var out []mcase
 	for _, p := range pointers(tree) {
 		cl := p.class()
 		if ndjson && len(p) == 0 {
 			continue // the "root" of a stream is not a JSON node
 		}
+		if ndjson && keepDoc != nil {
+			if i, err := strconv.Atoi(p[0]); err == nil && !keepDoc(i) {
+				continue
+			}
+		}
 		orig := getAt(tree, p)
 		for _, m := range menu {
-			c := mcase{Seed: s, Loc: locPrefix + cl, Repl: m.Class, Req: set(encBody(replaceAt(tree, p, m.Val, false), ndjson))}
+			c := mcase{Seed: s.ref(), Loc: locPrefix + cl, Repl: m.Class, Req: set(encBody(replaceAt(tree, p, m.Val, false), ndjson))}
 			if must != nil {
 				c.Must = must(cl, m.Class)
 			}
 			out = append(out, c)
 		}
 		if len(p) > 0 {
-			c := mcase{Seed: s, Loc: locPrefix + cl, Repl: "delete", Req: set(encBody(replaceAt(tree, p, nil, true), ndjson))}
+			c := mcase{Seed: s.ref(), Loc: locPrefix + cl, Repl: "delete", Req: set(encBody(replaceAt(tree, p, nil, true), ndjson))}
 			if must != nil {
 				c.Must = must(cl, "delete")
 			}
@@ -169,16 +192,16 @@ func jsonCases(s *Seed, tree any, ndjson bool, locPrefix string, set func(body s
 		}
 		if isDateString(orig) {
 			for _, d := range badDates {
-				out = append(out, mcase{Seed: s, Loc: locPrefix + cl, Repl: "date-" + d.Name, Must: d.Name != "empty",
+				out = append(out, mcase{Seed: s.ref(), Loc: locPrefix + cl, Repl: "date-" + d.Name, Must: strictDates && d.Name != "empty",
 					Req: set(encBody(replaceAt(tree, p, d.Val, false), ndjson))})
 			}
 		}
 		for _, nv := range values[cl] {
-			out = append(out, mcase{Seed: s, Loc: locPrefix + cl, Repl: "invalid:" + nv.Name, Must: true,
+			out = append(out, mcase{Seed: s.ref(), Loc: locPrefix + cl, Repl: "invalid:" + nv.Name, Must: true,
 				Req: set(encBody(replaceAt(tree, p, nv.Val, false), ndjson))})
 		}
 		for _, nv := range raw[cl] {
-			out = append(out, mcase{Seed: s, Loc: locPrefix + cl, Repl: "invalid:" + nv.Name, Must: true,
+			out = append(out, mcase{Seed: s.ref(), Loc: locPrefix + cl, Repl: "invalid:" + nv.Name, Must: true,
 				Req: set(encBody(replaceAt(tree, p, rawJSON(nv.Val), false), ndjson))})
 		}
 	}
@@ -196,9 +219,33 @@ func nextCursor(body string) string {
 }
 
 // casesOf enumerates every mutation of one seed. seedResp is the response of the seed.
-func casesOf(s *Seed, seedResp Resp) ([]mcase, error) {
+func casesOf(s *Seed, seedResp Resp, thorough bool) ([]mcase, error) {
 	var out []mcase
-	add := func(c mcase) { c.Seed = s; out = append(out, c) }
+	// quick tier: in a stream body, only the first document of each log type is mutated
+	var keepDoc func(i int) bool
+	if s.NDJSON && !thorough {
+		docs, _ := parseBody(s.Req.Body, true)
+		first := map[string]int{}
+		if l, ok := docs.([]any); ok {
+			for i, d := range l {
+				if m, ok := d.(map[string]any); ok {
+					ty, _ := m["type"].(string)
+					if _, seen := first[ty]; !seen {
+						first[ty] = i
+					}
+				}
+			}
+		}
+		keepDoc = func(i int) bool {
+			for _, j := range first {
+				if i == j {
+					return true
+				}
+			}
+			return false
+		}
+	}
+	add := func(c mcase) { c.Seed = s.ref(); out = append(out, c) }
 	base := s.Req
 
 	// 1. JSON body
@@ -207,7 +254,7 @@ func casesOf(s *Seed, seedResp Resp) ([]mcase, error) {
 		if !ok {
 			return nil, fmt.Errorf("seed body is not JSON")
 		}
-		out = append(out, jsonCases(s, tree, s.NDJSON, "body:", func(b string) Req { return base.withBody(b) }, s.MustReject, s.Values, s.RawValues)...)
+		out = append(out, jsonCases(s, tree, s.NDJSON, "body:", func(b string) Req { return base.withBody(b) }, s.MustReject, s.Values, s.RawValues, true, keepDoc)...)
 	}
 
 	// 2. query parameters
@@ -267,7 +314,7 @@ func casesOf(s *Seed, seedResp Resp) ([]mcase, error) {
 			if err != nil {
 				return nil, fmt.Errorf("seed query filter is not JSON")
 			}
-			out = append(out, jsonCases(s, tree, false, "query-filter:", func(b string) Req { return base.withQuery("query", b) }, nil, nil, nil)...)
+			out = append(out, jsonCases(s, tree, false, "query-filter:", func(b string) Req { return base.withQuery("query", b) }, nil, nil, nil, true, nil)...)
 		}
 	}
 
@@ -301,7 +348,7 @@ func casesOf(s *Seed, seedResp Resp) ([]mcase, error) {
 		}
 		// tampered cursors: every field of the decoded cursor x menu (in doubt: a cursor is
 		// opaque, a tampered one may still be acceptable; only 5xx/panic/malformed count)
-		out = append(out, jsonCases(s, tree, false, "cursor-json:", func(b string) Req { return setCursor(b64(b)) }, nil, nil, nil)...)
+		out = append(out, jsonCases(s, tree, false, "cursor-json:", func(b string) Req { return setCursor(b64(b)) }, nil, nil, nil, false, nil)...)
 	}
 
 	// 5. body-level damage
@@ -357,7 +404,8 @@ func casesOf(s *Seed, seedResp Resp) ([]mcase, error) {
 			c[s.PathID] = v.Val
 			r := base.clone()
 			r.Path = strings.Join(c, "/")
-			add(mcase{Loc: "path:id", Repl: v.Name, Must: true, Req: r})
+			// "+1" is accepted by strconv.ParseInt: in doubt
+			add(mcase{Loc: "path:id", Repl: v.Name, Must: v.Name != "plus", Req: r})
 		}
 	}
 	if s.PathAddr > 0 {
@@ -367,14 +415,11 @@ func casesOf(s *Seed, seedResp Resp) ([]mcase, error) {
 			r := base.clone()
 			r.Path = strings.Join(c, "/")
 			// an invalid address must be refused where it would be written
-			add(mcase{Loc: "path:address", Repl: "invalid:" + v.Name, Must: base.Method == "POST", Req: r})
+			add(mcase{Loc: "path:address", Repl: "invalid-address", Must: base.Method == "POST", Req: r})
 		}
 	}
 	return out, nil
 }
-
-// c38Trace, when set (tests), sees every violating case, not only the first per signature.
-var c38Trace func(sig string, c *mcase, resp Resp)
 
 // wellFormed checks the shape of the response for its status.
 func wellFormed(c *mcase, r Resp) string {
@@ -426,14 +471,13 @@ func wellFormed(c *mcase, r Resp) string {
 
 func statusClass(st int) string { return fmt.Sprintf("%dxx", st/100) }
 
-// c38plan is the deterministic case list (identical in the parent and in every child).
+// c38plan is the case list.
 type c38plan struct {
 	ctx   *c38ctx
 	cases []mcase
-	hash  string
 }
 
-func planC38() (*c38plan, error) {
+func planC38(thorough bool) (*c38plan, error) {
 	ctx := context.Background()
 	c, err := bootC38(ctx)
 	if err != nil {
@@ -455,20 +499,97 @@ func planC38() (*c38plan, error) {
 		if (after != bootDump) != s.Write {
 			return nil, fmt.Errorf("seed %s: state changed=%v, expected %v", s.id(), after != bootDump, s.Write)
 		}
-		cs, err := casesOf(s, resp)
+		cs, err := casesOf(s, resp, thorough)
 		if err != nil {
 			return nil, fmt.Errorf("seed %s: %v", s.id(), err)
 		}
 		cases = append(cases, cs...)
 	}
-	h := sha256.New()
-	for i := range cases {
-		fmt.Fprintf(h, "%s|%s|%s|%s\n", cases[i].Seed.id(), cases[i].Loc, cases[i].Repl, cases[i].Req.key())
-	}
-	return &c38plan{ctx: c, cases: cases, hash: hex.EncodeToString(h.Sum(nil)[:8])}, nil
+	return &c38plan{ctx: c, cases: cases}, nil
 }
 
-var c38History38 = map[string]any{"ledgers": c38Ledgers, "history": c38History}
+var c38Boot = map[string]any{"ledgers": c38Ledgers, "history": c38History}
+
+var reDigits = regexp.MustCompile(`[0-9]+`)
+var reQuoted = regexp.MustCompile(`'[^']*'|"[^"]*"|` + "`[^`]*`")
+var reSQLState = regexp.MustCompile(`SQLSTATE [0-9A-Z]{5}`)
+var reMsg = regexp.MustCompile(`msg="((?:[^"\\]|\\.)*)"`)
+
+// errorCause normalises what the server logged for an INTERNAL error into a stable
+// class: the head of the error chain (+ the SQLSTATE, if any), values and numbers removed.
+func errorCause(log string) string {
+	ms := reMsg.FindAllStringSubmatch(log, -1)
+	if len(ms) == 0 {
+		return "unlogged"
+	}
+	msg := strings.ReplaceAll(ms[len(ms)-1][1], `\"`, `"`)
+	state := reSQLState.FindString(msg)
+	segs := strings.Split(msg, ": ")
+	head := segs[0]
+	head = reQuoted.ReplaceAllString(head, "_")
+	head = reDigits.ReplaceAllString(head, "N")
+	if len(head) > 90 {
+		head = head[:90]
+	}
+	if state != "" {
+		head += " (" + state + ")"
+	}
+	return head
+}
+
+var reSite = regexp.MustCompile(`/repo/([^ :]+:[0-9]+)`)
+
+// siteOf extracts the first source position inside the repository from a panic description.
+func siteOf(desc string) string {
+	if m := reSite.FindStringSubmatch(desc); m != nil {
+		return m[1]
+	}
+	return "unknown-site"
+}
+
+func locKind(loc string) string {
+	i := strings.IndexByte(loc, ':')
+	if i < 0 {
+		return loc
+	}
+	switch loc[:i] {
+	case "query", "header", "path":
+		return loc
+	}
+	return loc[:i]
+}
+
+// c38sig builds the structural signature. Failures that have a server-side cause (panic
+// site, crash site, logged error class) are keyed by route + location kind + outcome +
+// cause, so that one defect is one signature whatever field/replacement triggered it;
+// failures without one (accepted, malformed) are keyed by route + pointer class +
+// replacement class + outcome.
+func c38sig(c *mcase, outcome, cause string) string {
+	switch outcome {
+	case "panic", "process-crash", "5xx", "state-changed-on-4xx", "no-response":
+		return fmt.Sprintf("C38:%s:%s:%s:%s:%s", c.Seed.API, c.Seed.Route, locKind(c.Loc), outcome, cause)
+	}
+	return fmt.Sprintf("C38:%s:%s:%s:%s:%s", c.Seed.API, c.Seed.Route, c.Loc, c.Repl, outcome)
+}
+
+func c38replay(c *mcase, resp *Resp) map[string]any {
+	m := map[string]any{"seed": c.Seed.id(), "mutation": c.Loc + "=" + c.Repl, "boot": c38Boot, "pre": c.Pre, "request": c.Req, "definitely_invalid": c.Must}
+	if resp != nil {
+		m["response"] = *resp
+	}
+	return m
+}
+
+func errorCodeOf(body string) string {
+	var m struct {
+		ErrorCode string `json:"errorCode"`
+	}
+	_ = json.Unmarshal([]byte(body), &m)
+	if m.ErrorCode == "" {
+		return "none"
+	}
+	return m.ErrorCode
+}
 
 // execC38 runs one case on a fresh clone and classifies the outcome.
 func execC38(boot *pgsim.DB, c *mcase) caseResult {
@@ -501,8 +622,8 @@ func execC38(boot *pgsim.DB, c *mcase) caseResult {
 		res.Engine = desc("pgsim engine error surfaced")
 		return res
 	}
-	viol := func(outcome, msg string) {
-		res.Viol = append(res.Viol, violRec{Sig: c38sig(c, outcome), What: desc(msg), Replay: c38replay(c, &resp)})
+	viol := func(outcome, cause, msg string) {
+		res.Viol = append(res.Viol, violRec{Sig: c38sig(c, outcome, cause), What: desc(msg), Replay: c38replay(c, &resp)})
 	}
 	res.Key = c.Req.key()
 	res.Counts["status:"+cls]++
@@ -533,21 +654,21 @@ func execC38(boot *pgsim.DB, c *mcase) caseResult {
 			}
 			pv := p.PanicOf(c.Req)
 			p.Close()
-			viol("panic", "5xx with an empty body (recovered panic): "+pv)
+			viol("panic", siteOf(pv), "5xx with an empty body (recovered panic): "+pv)
 		} else {
-			viol("5xx", "5xx in answer to a client request")
+			viol("5xx", errorCause(resp.Log), "5xx in answer to a client request")
 		}
 	case resp.Status < 200 || (resp.Status >= 300 && resp.Status < 400):
-		viol("odd-status", "unexpected status class")
+		viol("odd-status", "", "unexpected status class")
 	default:
 		if m := wellFormed(c, resp); m != "" {
-			viol("malformed-response", m)
+			viol("malformed-response", "", m)
 		}
-		if resp.Status >= 400 && changed {
-			viol("state-changed-on-4xx", "4xx but the database changed")
+		if resp.Status >= 400 && changed && !c.Seed.PartialEffect {
+			viol("state-changed-on-4xx", errorCodeOf(resp.Body), "4xx but the database changed")
 		}
 		if c.Must && resp.Status < 300 {
-			viol("accepted", fmt.Sprintf("definitely-invalid input accepted with %d (database changed=%v)", resp.Status, changed))
+			viol("accepted", "", fmt.Sprintf("definitely-invalid input accepted with %d (database changed=%v)", resp.Status, changed))
 		}
 		if c.Sanity && resp.Status >= 300 {
 			res.Engine = desc("sanity request (valid) was refused")
@@ -556,33 +677,27 @@ func execC38(boot *pgsim.DB, c *mcase) caseResult {
 	return res
 }
 
-func c38sig(c *mcase, outcome string) string {
-	return fmt.Sprintf("C38:%s:%s:%s:%s:%s", c.Seed.API, c.Seed.Route, c.Loc, c.Repl, outcome)
-}
-
-func c38replay(c *mcase, resp *Resp) map[string]any {
-	m := map[string]any{"seed": c.Seed.id(), "boot": c38History38, "pre": c.Pre, "request": c.Req, "definitely_invalid": c.Must}
-	if resp != nil {
-		m["response"] = *resp
-	}
-	return m
-}
-
 // c38Trace, when set (tests), sees every violating case, not only the first per signature.
 var c38Trace func(sig string, c *mcase, what string)
 
 func c38Worker(w *workerSpec) int {
-	p, err := planC38()
+	pg, err := BootSeeded(context.Background(), c38Ledgers, c38History)
 	if err != nil {
 		fmt.Fprintln(os.Stderr, "worker: "+err.Error())
 		return 2
 	}
-	return serveWorker(w, len(p.cases), p.hash, func(i int) caseResult { return execC38(p.ctx.boot, &p.cases[i]) })
+	return serveWorker(w, func(payload []byte) caseResult {
+		var c mcase
+		if err := json.Unmarshal(payload, &c); err != nil {
+			return caseResult{Engine: "worker: bad case: " + err.Error()}
+		}
+		return execC38(pg, &c)
+	})
 }
 
 func runC38(r *ev.Run) (ev.Coverage, []string) {
-	assumptions := []string{pgsimAssumption, httpAssumption, "process isolation: every case runs in a child process of the same binary so that a crash of the whole process (panic in a goroutine started by a handler) is an observable outcome"}
-	p, err := planC38()
+	assumptions := []string{pgsimAssumption, httpAssumption, "process isolation: every case runs in a child process of the same binary (which boots and seeds its own identical database) so that the death of the whole process (panic in a goroutine started by a handler) is an observable outcome"}
+	p, err := planC38(r.Thorough())
 	if err != nil {
 		r.EngineError(err.Error())
 		return nil, assumptions
@@ -592,7 +707,10 @@ func runC38(r *ev.Run) (ev.Coverage, []string) {
 	samples := ev.NewSamples(6)
 	var evals int64
 	deadline := time.Now().Add(budgetOf(r, c38Quick, c38Thorough) - r.Elapsed())
-	exhaustive, err := runIsolated("C38", len(p.cases), p.hash, deadline, 120*time.Second, func(res caseResult) {
+	exhaustive, err := runIsolated("C38", len(p.cases), func(i int) []byte {
+		b, _ := json.Marshal(&p.cases[i])
+		return b
+	}, deadline, 120*time.Second, func(res caseResult) {
 		evals++
 		c := &p.cases[res.I]
 		if res.Crashed {
@@ -600,7 +718,7 @@ func runC38(r *ev.Run) (ev.Coverage, []string) {
 			if res.Extra["hung"] != "" {
 				outcome, msg = "no-response", "no response: "
 			}
-			sg := c38sig(c, outcome)
+			sg := c38sig(c, outcome, siteOf(res.Stderr))
 			what := fmt.Sprintf("%s%s — seed %s, mutation %s=%s; request: %s", msg, res.Stderr, c.Seed.id(), c.Loc, c.Repl, c.Req)
 			if c38Trace != nil {
 				c38Trace(sg, c, what)
@@ -660,7 +778,8 @@ func runC38(r *ev.Run) (ev.Coverage, []string) {
 		"cases_per_mutation_kind":         kinds,
 		"exhaustive":                      exhaustive,
 		"samples":                         samples.List(),
-		"rule":                            "one valid seed request per v1/v2 route (exporters/pipelines and bucket deletion excluded) on a clone of a booted+seeded pgsim database; mutations one at a time: every JSON pointer of the body (and of the query-string filter, and of the decoded cursor) x {null,true,0,-1,1.5,1e400,\"\",\"x\",[],{},2^70,300-char string} + delete; bad dates on date-valued fields/params; every query parameter x {-1,0,abc,1e9,empty,300 chars}; cursors x {garbage, base64 of invalid JSON/non-object/text, truncated}; malformed filters; named invalid addresses/assets/variable values; empty/truncated/non-JSON body; Content-Type; Idempotency-Key reused with a different input; path id/address. Oracle: no 5xx/panic/process crash, well-formed body for the status, 4xx leaves the dump unchanged, definitely-invalid input (explicit table) is 4xx; in-doubt mutations may be 2xx or 4xx",
+		"stream_documents_mutated":        map[bool]string{true: "all", false: "first of each log type"}[r.Thorough()],
+		"rule":                            "one valid seed request per v1/v2 route (exporters/pipelines and bucket deletion excluded) on a clone of a booted+seeded pgsim database; mutations one at a time: every JSON pointer of the body (and of the query-string filter, and of the decoded cursor) x {null,true,0,-1,1.5,1e400,\"\",\"x\",[],{},2^70,300-char string} + delete; bad dates on date-valued fields/params; every query parameter x {-1,0,abc,1e9,empty,300 chars}; cursors x {garbage, base64 of invalid JSON/non-object/text, truncated}; malformed filters; named invalid addresses/assets/variable values; empty/truncated/non-JSON body; Content-Type; Idempotency-Key reused with a different input; path id/address. Oracle: no 5xx/panic/process crash, well-formed body for the status, 4xx leaves the dump unchanged (except non-atomic bulk, whose elements are independent by contract), definitely-invalid input (explicit table) is 4xx; in-doubt mutations may be 2xx or 4xx",
 	}
 	return cov, assumptions
 }
@@ -685,4 +804,14 @@ func init() {
 		cov, as := runC38(r)
 		return r.Finish(cov, as)
 	})
+}
+
+// sortedKeys is used by tests and evidence helpers.
+func sortedKeys[V any](m map[string]V) []string {
+	out := make([]string, 0, len(m))
+	for k := range m {
+		out = append(out, k)
+	}
+	sort.Strings(out)
+	return out
 }
